@@ -156,7 +156,7 @@ type knownFinding struct {
 
 func (c *Ctx) loadKnown() []knownFinding {
 	var out []knownFinding
-	b, err := os.ReadFile(filepath.Join(c.VerifDir, "known_findings.txt"))
+	b, err := os.ReadFile(filepath.Join(c.HomeDir, "known_findings.txt"))
 	if err != nil {
 		return nil
 	}
